@@ -178,24 +178,6 @@ theorem C19_rewrite_is_stored_lazy (c : Cfg) (s : State) (h : Nat) (o : Obj) (id
   rw [(syncUpdate_pending c s h o he).2.2.1]
   exact rowOf_updRows s.rows o.id _ id'
 
-/-- in a segment `before ++ write :: rest` whose `before` part holds no callback run, every
-    callback run comes after the write -/
-theorem post_after_write (A B : List Tag) (w : Tag) (hA : ∀ t ∈ A, ∀ p, t ≠ Tag.post p) (hw : ∀ p, w ≠ Tag.post p)
-    (pre suf : List Tag) (p : Nat) (h : A ++ w :: B = pre ++ Tag.post p :: suf) : w ∈ pre := by
-  rcases Chain.split_append h with ⟨s', h1⟩ | ⟨pre', hp, h2⟩
-  · exact absurd rfl (hA (Tag.post p) (by rw [h1]; simp) p)
-  · cases pre' with
-    | nil => simp at h2; exact absurd h2.1 (hw p)
-    | cons x xs =>
-      simp only [List.cons_append, List.cons.injEq] at h2
-      rw [hp, h2.1]; simp
-
-theorem evTags_no_post (c : Cfg) (sig : Sig) : ∀ t ∈ evTags c sig, ∀ p, t ≠ Tag.post p := by
-  intro t ht p
-  simp only [evTags, List.mem_map] at ht
-  obtain ⟨_, _, rfl⟩ := ht
-  simp
-
 /-- **appended callbacks run after the operation's write** — and exactly where the code puts them:
     the callbacks of a create / update / destroy segment are exactly `postTags` of its two signals
     (one run per appended callback, in connection order: `C19_send_once_in_order`), the ones
